@@ -146,10 +146,12 @@ func (m *Multi) Clone() seq.Rower {
 
 // RevComp reverse complements the sequence.
 func (m *Multi) RevComp() {
-	end := m.End()
+	start, end := m.Start(), m.End()
 	for _, r := range m.Seq {
+		// Mirror the row about the span of the alignment.
+		o := start + end - r.End()
 		r.RevComp()
-		r.SetOffset(end - m.End())
+		r.SetOffset(o)
 	}
 
 	return
@@ -157,10 +159,12 @@ func (m *Multi) RevComp() {
 
 // Reverse reverses the order of letters in the the sequence without complementing them.
 func (m *Multi) Reverse() {
-	end := m.End()
+	start, end := m.Start(), m.End()
 	for _, r := range m.Seq {
+		// Mirror the row about the span of the alignment.
+		o := start + end - r.End()
 		r.Reverse()
-		r.SetOffset(end - m.End())
+		r.SetOffset(o)
 	}
 }
 
